@@ -940,3 +940,241 @@ Proof.
   pose proof (digits_of_length 16 n k ltac:(lia) Hn Hk). pose proof (digits_of_nonempty 16 n).
   destruct (digits_of 16 n); [congruence|cbn in *; lia].
 Qed.
+
+(* ------------------------------------------------------------------------------------------ *)
+(** * contains_char / count_char *)
+
+Lemma contains_char_app c a b : contains_char c (a ++ b)%string = contains_char c a || contains_char c b.
+Proof. unfold contains_char. rewrite chars_app. apply existsb_app. Qed.
+
+Lemma contains_char_cons c a s : contains_char c (String a s) = ascii_eqb c a || contains_char c s.
+Proof. reflexivity. Qed.
+
+Lemma contains_char_empty c : contains_char c EmptyString = false.
+Proof. reflexivity. Qed.
+
+Lemma contains_char_true_iff c s : contains_char c s = true <-> In c (chars s).
+Proof.
+  unfold contains_char. rewrite existsb_exists. split.
+  - intros (x & Hx & E). apply ascii_eqb_eq in E. now subst.
+  - intros H. exists c. split; [exact H|apply ascii_eqb_refl].
+Qed.
+
+Lemma contains_char_false_iff c s : contains_char c s = false <-> ~ In c (chars s).
+Proof. rewrite <- contains_char_true_iff. destruct (contains_char c s); split; congruence. Qed.
+
+Lemma no_char_filter c l : existsb (ascii_eqb c) l = false -> filter (ascii_eqb c) l = [].
+Proof.
+  induction l as [|a l IH]; [reflexivity|]. cbn [existsb filter]. intros H.
+  apply orb_false_iff in H. destruct H as [Ha Hl]. rewrite Ha. now apply IH.
+Qed.
+
+Lemma count_char_nonneg c s : 0 <= count_char c s.
+Proof. unfold count_char. lia. Qed.
+
+Lemma count_char_app c a b : count_char c (a ++ b)%string = count_char c a + count_char c b.
+Proof. unfold count_char. rewrite chars_app, filter_app, app_length. lia. Qed.
+
+Lemma count_char_cons c a s : count_char c (String a s) = (if ascii_eqb c a then 1 else 0) + count_char c s.
+Proof. unfold count_char. cbn [chars filter]. destruct (ascii_eqb c a); cbn [List.length]; lia. Qed.
+
+Lemma count_char_zero_iff c s : count_char c s = 0 <-> contains_char c s = false.
+Proof.
+  unfold count_char, contains_char. induction (chars s) as [|a l IH]; [cbn; tauto|].
+  cbn [filter existsb]. destruct (ascii_eqb c a); cbn [List.length orb].
+  - split; [lia|discriminate].
+  - exact IH.
+Qed.
+
+(* ------------------------------------------------------------------------------------------ *)
+(** * split / join *)
+
+Lemma split_chars_nonempty sep l cur : split_chars sep l cur <> [].
+Proof.
+  revert cur. induction l as [|a l IH]; intros cur; cbn [split_chars]; [discriminate|].
+  destruct (ascii_eqb a sep); [discriminate|apply IH].
+Qed.
+
+Lemma split_nonempty c s : split c s <> [].
+Proof.
+  unfold split. pose proof (split_chars_nonempty c (chars s) []).
+  destruct (split_chars c (chars s) []); [congruence|discriminate].
+Qed.
+
+(* a separator-free token followed by the separator: the token is emitted, scanning restarts *)
+Lemma split_chars_token c t rest cur : existsb (ascii_eqb c) t = false ->
+  split_chars c (t ++ c :: rest) cur = (rev cur ++ t) :: split_chars c rest [].
+Proof.
+  revert cur. induction t as [|a t IH]; intros cur H.
+  - cbn [app split_chars]. rewrite ascii_eqb_refl. now rewrite app_nil_r.
+  - cbn [existsb] in H. apply orb_false_iff in H. destruct H as [Ha Ht].
+    cbn [app split_chars]. rewrite ascii_eqb_sym, Ha. rewrite IH by exact Ht.
+    cbn [rev]. now rewrite <- app_assoc.
+Qed.
+
+Lemma split_chars_last c t cur : existsb (ascii_eqb c) t = false -> split_chars c t cur = [rev cur ++ t].
+Proof.
+  revert cur. induction t as [|a t IH]; intros cur H.
+  - cbn [split_chars]. now rewrite app_nil_r.
+  - cbn [existsb] in H. apply orb_false_iff in H. destruct H as [Ha Ht].
+    cbn [split_chars]. rewrite ascii_eqb_sym, Ha. rewrite IH by exact Ht.
+    cbn [rev]. now rewrite <- app_assoc.
+Qed.
+
+Lemma split_chars_join c toks : toks <> [] -> Forall (fun t => existsb (ascii_eqb c) t = false) toks ->
+  split_chars c (join_chars [c] toks) [] = toks.
+Proof.
+  induction toks as [|t r IH]; intros Hne HF; [congruence|].
+  inversion HF as [|? ? Ht Hr]; subst. destruct r as [|t2 r'].
+  - cbn [join_chars]. now rewrite split_chars_last.
+  - change (join_chars [c] (t :: t2 :: r')) with (t ++ c :: join_chars [c] (t2 :: r')).
+    rewrite split_chars_token by exact Ht. cbn [rev app]. f_equal. apply IH; [discriminate|exact Hr].
+Qed.
+
+Lemma split_join c toks : toks <> [] -> Forall (fun t => contains_char c t = false) toks ->
+  split c (join (String c EmptyString) toks) = toks.
+Proof.
+  intros Hne HF. unfold split, join. rewrite chars_str_of. cbn [chars].
+  rewrite split_chars_join.
+  - apply map_str_of_chars.
+  - destruct toks; [congruence|discriminate].
+  - apply Forall_map. exact HF.
+Qed.
+
+Lemma split_no_sep c s : contains_char c s = false -> split c s = [s].
+Proof.
+  intros H. unfold split. rewrite split_chars_last by exact H. cbn [rev app map]. now rewrite str_of_chars.
+Qed.
+
+Lemma split_empty c : split c EmptyString = [EmptyString].
+Proof. reflexivity. Qed.
+
+Lemma split_app c a b : contains_char c a = false -> split c (a ++ String c b)%string = a :: split c b.
+Proof.
+  intros H. unfold split. rewrite chars_app. cbn [chars]. rewrite split_chars_token by exact H.
+  cbn [rev app map]. now rewrite str_of_chars.
+Qed.
+
+Lemma split_chars_length c l cur :
+  List.length (split_chars c l cur) = S (List.length (filter (ascii_eqb c) l)).
+Proof.
+  revert cur. induction l as [|a l IH]; intros cur; [reflexivity|].
+  cbn [split_chars filter]. rewrite (ascii_eqb_sym c a). destruct (ascii_eqb a c); cbn [List.length]; now rewrite IH.
+Qed.
+
+Lemma split_length c s : Z.of_nat (List.length (split c s)) = count_char c s + 1.
+Proof. unfold split, count_char. rewrite map_length, split_chars_length. lia. Qed.
+
+Lemma existsb_rev {A} (f : A -> bool) l : existsb f (rev l) = existsb f l.
+Proof.
+  induction l as [|a l IH]; [reflexivity|]. cbn [rev existsb]. rewrite existsb_app, IH. cbn [existsb].
+  rewrite orb_false_r. apply orb_comm.
+Qed.
+
+(* no field of a split contains the separator, and joining gives the text back *)
+Lemma split_chars_fields c l cur : existsb (ascii_eqb c) cur = false ->
+  Forall (fun t => existsb (ascii_eqb c) t = false) (split_chars c l cur).
+Proof.
+  revert cur. induction l as [|a l IH]; intros cur Hc.
+  - cbn [split_chars]. constructor; [|constructor]. now rewrite existsb_rev.
+  - cbn [split_chars]. destruct (ascii_eqb a c) eqn:E.
+    + constructor; [now rewrite existsb_rev|]. now apply IH.
+    + apply IH. cbn [existsb]. now rewrite ascii_eqb_sym, E, Hc.
+Qed.
+
+Lemma split_fields c s : Forall (fun t => contains_char c t = false) (split c s).
+Proof.
+  unfold split. apply Forall_map. eapply Forall_impl; [|apply (split_chars_fields c (chars s) []); reflexivity].
+  intros t Ht. unfold contains_char. now rewrite chars_str_of.
+Qed.
+
+Lemma join_chars_split_chars c l cur : join_chars [c] (split_chars c l cur) = rev cur ++ l.
+Proof.
+  revert cur. induction l as [|a l IH]; intros cur.
+  - cbn [split_chars join_chars]. now rewrite app_nil_r.
+  - cbn [split_chars]. destruct (ascii_eqb a c) eqn:E.
+    + apply ascii_eqb_eq in E. subst a.
+      pose proof (split_chars_nonempty c l []) as Hne. pose proof (IH []) as IH0.
+      destruct (split_chars c l []) as [|x xs] eqn:Es; [congruence|].
+      change (join_chars [c] (rev cur :: x :: xs)) with (rev cur ++ [c] ++ join_chars [c] (x :: xs)).
+      rewrite IH0. reflexivity.
+    + rewrite IH. cbn [rev]. now rewrite <- app_assoc.
+Qed.
+
+Lemma join_split c s : join (String c EmptyString) (split c s) = s.
+Proof.
+  unfold join, split. rewrite map_chars_str_of. cbn [chars]. rewrite join_chars_split_chars.
+  cbn [rev app]. apply str_of_chars.
+Qed.
+
+(* ---- split1 ---- *)
+
+Lemma split1_chars_token c t rest cur : existsb (ascii_eqb c) t = false ->
+  split1_chars c (t ++ c :: rest) cur = [rev cur ++ t; rest].
+Proof.
+  revert cur. induction t as [|a t IH]; intros cur H.
+  - cbn [app split1_chars]. rewrite ascii_eqb_refl. now rewrite app_nil_r.
+  - cbn [existsb] in H. apply orb_false_iff in H. destruct H as [Ha Ht].
+    cbn [app split1_chars]. rewrite ascii_eqb_sym, Ha. rewrite IH by exact Ht.
+    cbn [rev]. now rewrite <- app_assoc.
+Qed.
+
+Lemma split1_chars_last c t cur : existsb (ascii_eqb c) t = false -> split1_chars c t cur = [rev cur ++ t].
+Proof.
+  revert cur. induction t as [|a t IH]; intros cur H.
+  - cbn [split1_chars]. now rewrite app_nil_r.
+  - cbn [existsb] in H. apply orb_false_iff in H. destruct H as [Ha Ht].
+    cbn [split1_chars]. rewrite ascii_eqb_sym, Ha. rewrite IH by exact Ht.
+    cbn [rev]. now rewrite <- app_assoc.
+Qed.
+
+Lemma split1_app c a b : contains_char c a = false -> split1 c (a ++ String c b)%string = [a; b].
+Proof.
+  intros H. unfold split1. rewrite chars_app. cbn [chars]. rewrite split1_chars_token by exact H.
+  cbn [rev app map]. now rewrite !str_of_chars.
+Qed.
+
+Lemma split1_no_sep c s : contains_char c s = false -> split1 c s = [s].
+Proof.
+  intros H. unfold split1. rewrite split1_chars_last by exact H. cbn [rev app map]. now rewrite str_of_chars.
+Qed.
+
+(* every text is either separator-free or  a ++ c ++ b  with a separator-free: the two cases above are exhaustive *)
+Lemma split1_cases c s :
+  (contains_char c s = false /\ split1 c s = [s]) \/
+  (exists a b, s = (a ++ String c b)%string /\ contains_char c a = false /\ split1 c s = [a; b]).
+Proof.
+  destruct (contains_char c s) eqn:E; [right|left; split; [reflexivity|now apply split1_no_sep]].
+  induction s as [|x s IH]; [discriminate|].
+  rewrite contains_char_cons in E. destruct (ascii_eqb c x) eqn:Ex.
+  - apply ascii_eqb_eq in Ex. subst x. exists EmptyString, s. split; [reflexivity|]. split; [reflexivity|].
+    now apply (split1_app c EmptyString s).
+  - cbn [orb] in E. destruct (IH E) as (a & b & -> & Ha & _).
+    exists (String x a), b. split; [reflexivity|]. split.
+    + rewrite contains_char_cons, Ex, Ha. reflexivity.
+    + apply (split1_app c (String x a) b). rewrite contains_char_cons, Ex, Ha. reflexivity.
+Qed.
+
+Lemma split1_length c s : (1 <= List.length (split1 c s) <= 2)%nat.
+Proof.
+  destruct (split1_cases c s) as [[_ ->]|(a & b & _ & _ & ->)]; cbn; lia.
+Qed.
+
+(* ---- join ---- *)
+
+Lemma join_nil sep : join sep [] = EmptyString.
+Proof. reflexivity. Qed.
+
+Lemma join_single sep t : join sep [t] = t.
+Proof. unfold join. cbn [map join_chars]. apply str_of_chars. Qed.
+
+Lemma join_cons sep t u r : join sep (t :: u :: r) = (t ++ sep ++ join sep (u :: r))%string.
+Proof.
+  unfold join. cbn [map]. 
+  change (join_chars (chars sep) (chars t :: chars u :: map chars r))
+    with (chars t ++ chars sep ++ join_chars (chars sep) (chars u :: map chars r)).
+  now rewrite !str_of_app, !str_of_chars.
+Qed.
+
+Lemma join_two sep t u : join sep [t; u] = (t ++ sep ++ u)%string.
+Proof. now rewrite join_cons, join_single. Qed.
